@@ -3,7 +3,7 @@ import json, os, random
 from harness import tla
 from harness.checks import treefam as F
 
-FAULTS = ('tuplelen', 'childiter', 'entlen', 'entiter')
+FAULTS = ('tuplelen', 'childiter', 'entlen', 'entiter', 'entshort')
 
 
 def main(run):
